@@ -39,6 +39,46 @@ import (
 //go:embed baseline_funcs.txt
 var baselineFuncsTxt string
 
+//go:embed baseline_fields.txt
+var baselineFieldsTxt string
+
+type fieldInfo struct {
+	pkg, typ string
+	idx      int
+	name, ty string
+}
+
+func currentFields(pkgs []*packages.Package) ([]fieldInfo, map[string]*types.Var) {
+	var out []fieldInfo
+	vars := map[string]*types.Var{}
+	for _, p := range pkgs {
+		if !canonScope(p.PkgPath) || p.Types == nil {
+			continue
+		}
+		sc := p.Types.Scope()
+		for _, n := range sc.Names() {
+			tn, ok := sc.Lookup(n).(*types.TypeName)
+			if !ok {
+				continue
+			}
+			st, ok := tn.Type().Underlying().(*types.Struct)
+			if !ok {
+				continue
+			}
+			for i := 0; i < st.NumFields(); i++ {
+				f := st.Field(i)
+				if f.Embedded() {
+					continue
+				}
+				fi := fieldInfo{p.PkgPath, n, i, f.Name(), types.TypeString(f.Type(), func(q *types.Package) string { return q.Path() })}
+				out = append(out, fi)
+				vars[fmt.Sprintf("%s\t%s\t%s", fi.pkg, fi.typ, fi.name)] = f
+			}
+		}
+	}
+	return out, vars
+}
+
 type CanonLog struct {
 	NewFuncs []string `json:"new_functions,omitempty"`
 	Renamed  []string `json:"renames_undone,omitempty"`
@@ -113,6 +153,15 @@ func currentDecls(pkgs []*packages.Package) []declInfo {
 	return out
 }
 
+func writeBaselineFields(pkgs []*packages.Package, path string) error {
+	var b bytes.Buffer
+	fs, _ := currentFields(pkgs)
+	for _, f := range fs {
+		fmt.Fprintf(&b, "%s\t%s\t%d\t%s\t%s\n", f.pkg, f.typ, f.idx, f.name, f.ty)
+	}
+	return os.WriteFile(path, b.Bytes(), 0o644)
+}
+
 func writeBaseline(pkgs []*packages.Package, path string) error {
 	var b bytes.Buffer
 	for _, d := range currentDecls(pkgs) {
@@ -142,7 +191,84 @@ func canonicalize(cfg packages.Config, pkgs []*packages.Package) (map[string][]b
 		}
 	}
 	sort.Strings(lg.NewFuncs)
-	if len(newBy) == 0 {
+	// ---- renamed struct fields: same struct, same type, a baseline name gone and an unknown name in its place
+	fieldObjs := map[types.Object]string{}
+	{
+		type key struct{ pkg, typ string }
+		baseF := map[key][]fieldInfo{}
+		for _, l := range strings.Split(baselineFieldsTxt, "\n") {
+			f := strings.Split(l, "\t")
+			if len(f) != 5 {
+				continue
+			}
+			var idx int
+			fmt.Sscanf(f[2], "%d", &idx)
+			k := key{f[0], f[1]}
+			baseF[k] = append(baseF[k], fieldInfo{f[0], f[1], idx, f[3], f[4]})
+		}
+		curFs, vars := currentFields(pkgs)
+		curF := map[key][]fieldInfo{}
+		for _, f := range curFs {
+			k := key{f.pkg, f.typ}
+			curF[k] = append(curF[k], f)
+		}
+		for k, bs := range baseF {
+			cs := curF[k]
+			if len(cs) == 0 {
+				continue
+			}
+			has := func(fs []fieldInfo, name string) bool {
+				for _, f := range fs {
+					if f.name == name {
+						return true
+					}
+				}
+				return false
+			}
+			var gone, fresh []fieldInfo
+			for _, b := range bs {
+				if !has(cs, b.name) {
+					gone = append(gone, b)
+				}
+			}
+			for _, c := range cs {
+				if !has(bs, c.name) {
+					fresh = append(fresh, c)
+				}
+			}
+			for _, g := range gone {
+				var cands []fieldInfo
+				for _, f := range fresh {
+					if f.ty == g.ty {
+						cands = append(cands, f)
+					}
+				}
+				// unique by type; or, among several of one type, the one at the same position
+				if len(cands) > 1 {
+					var same []fieldInfo
+					for _, f := range cands {
+						if f.idx == g.idx {
+							same = append(same, f)
+						}
+					}
+					cands = same
+				}
+				claims := 0
+				for _, g2 := range gone {
+					if g2.ty == g.ty {
+						claims++
+					}
+				}
+				if len(cands) == 1 && (claims == 1 || cands[0].idx == g.idx) {
+					if v := vars[fmt.Sprintf("%s\t%s\t%s", k.pkg, k.typ, cands[0].name)]; v != nil {
+						fieldObjs[v] = g.name
+						lg.Renamed = append(lg.Renamed, fmt.Sprintf("%s: field %s.%s -> %s", shortPkg(k.pkg), k.typ, cands[0].name, g.name))
+					}
+				}
+			}
+		}
+	}
+	if len(newBy) == 0 && len(fieldObjs) == 0 {
 		return nil, lg
 	}
 	for k, d := range base {
@@ -179,25 +305,31 @@ func canonicalize(cfg packages.Config, pkgs []*packages.Package) (map[string][]b
 			}
 		}
 	}
-	if len(renames) > 0 {
-		for _, p := range pkgs {
-			if len(newBy[p.PkgPath]) == 0 {
-				continue
-			}
-			objs := map[types.Object]string{}
-			for _, f := range p.Syntax {
-				for _, d := range f.Decls {
-					if fd, ok := d.(*ast.FuncDecl); ok {
-						if di, obj := declOf(p, fd); obj != nil {
-							if old, ok := renames[di.key()]; ok {
-								objs[obj] = old
-								lg.Renamed = append(lg.Renamed, fmt.Sprintf("%s: %s -> %s", shortPkg(di.pkg), declName(di), old))
-							}
+	objs := map[types.Object]string{}
+	for k, v := range fieldObjs {
+		objs[k] = v
+	}
+	for _, p := range pkgs {
+		if len(newBy[p.PkgPath]) == 0 {
+			continue
+		}
+		for _, f := range p.Syntax {
+			for _, d := range f.Decls {
+				if fd, ok := d.(*ast.FuncDecl); ok {
+					if di, obj := declOf(p, fd); obj != nil {
+						if old, ok := renames[di.key()]; ok {
+							objs[obj] = old
+							lg.Renamed = append(lg.Renamed, fmt.Sprintf("%s: %s -> %s", shortPkg(di.pkg), declName(di), old))
 						}
 					}
 				}
 			}
-			if len(objs) == 0 {
+		}
+	}
+	if len(objs) > 0 {
+		// identifiers in every repository package (an exported function or a field is used across packages)
+		for _, p := range pkgs {
+			if !strings.HasPrefix(p.PkgPath, "github.com/zilliztech/milvus-cdc/") || p.TypesInfo == nil {
 				continue
 			}
 			for _, f := range p.Syntax {
@@ -218,8 +350,11 @@ func canonicalize(cfg packages.Config, pkgs []*packages.Package) (map[string][]b
 					} else if u := p.TypesInfo.Uses[id]; u != nil {
 						o = u
 					}
-					if fo, ok := o.(*types.Func); ok {
-						o = fo.Origin()
+					switch x := o.(type) {
+					case *types.Func:
+						o = x.Origin()
+					case *types.Var:
+						o = x.Origin()
 					}
 					if old, ok := objs[o]; ok {
 						edits = append(edits, edit{tf.Offset(id.Pos()), tf.Offset(id.End()), old})
